@@ -305,9 +305,68 @@ pub fn run(ctx: &Ctx) {
         v
     });
     ctx.subspace("proptest: frame sequences up to 300 on 3-4 nodes (80% switch, 10% hub, 10% router)", n as u64, false);
+    table_level(ctx);
+}
+
+/// (c) table level with claims present: learned entries must survive everything except the three events the
+/// property names - in particular announcements and withdrawals of *other* peers (learning and claims share one table)
+fn table_level(ctx: &Ctx) {
+    use crate::props::c11::{run_table_case, Op as TOp, TableCase};
+    let alphabet: Vec<TOp> = vec![
+        TOp::Learn(1, 2),               // 10.1.3.1 learned from peer 1
+        TOp::Learn(2, 2),               // ... moves to peer 2
+        TOp::Learn(1, 9),               // a MAC learned from peer 1
+        TOp::Announce(0, vec![1]),      // peer 0: 10/8
+        TOp::Announce(0, vec![1, 4]),
+        TOp::Announce(0, vec![]),       // peer 0 withdraws everything
+        TOp::Announce(1, vec![3]),      // the learned-from peer itself announces
+        TOp::Announce(1, vec![]),
+        TOp::Disconnect(0),
+        TOp::Disconnect(1),
+        TOp::Lookup(2),
+        TOp::Lookup(9),
+        TOp::Tick(1),
+        TOp::Tick(4),
+    ];
+    let depth: u32 = ctx.tier.pick(5, 6);
+    let na = alphabet.len() as u64;
+    let total = na.pow(depth);
+    ctx.par_range_chunked(total, 4096, |_, mut i| {
+        let mut ops = Vec::with_capacity(depth as usize);
+        for _ in 0..depth {
+            ops.push(alphabet[(i % na) as usize].clone());
+            i /= na;
+        }
+        let has = ops.iter().any(|o| matches!(o, TOp::Learn(..))) && ops.iter().any(|o| matches!(o, TOp::Lookup(..)));
+        if !has {
+            return;
+        }
+        let c = TableCase { switch_timeout: 5, claim_timeout: 12, ops, strict_learning: true };
+        let v = run_table_case(ctx, &c);
+        ctx.report(v);
+    });
+    ctx.subspace(&format!("table level: all sequences of length {} over a 14-op alphabet mixing learned addresses with claims of the same and of other peers", depth), total, true);
+    let n: u32 = ctx.tier.pick(20_000, 300_000);
+    ctx.proptest(
+        "pt-learn-table",
+        n,
+        || (prop_oneof![Just((5u32, 12u32)), Just((12, 5)), Just((6, 6))], proptest::collection::vec(crate::props::c11::op_strategy(), 0..120)),
+        |((s, c), ops)| {
+            let case = TableCase { switch_timeout: *s, claim_timeout: *c, ops: ops.clone(), strict_learning: true };
+            run_table_case(ctx, &case)
+        },
+    );
+    ctx.subspace("table level: proptest histories to length 120 with the strict learning rule", n as u64, false);
 }
 
 pub fn replay(ctx: &Ctx, case: &Value) {
+    if case["kind"].as_str() == Some("table") {
+        if let Ok(c) = serde_json::from_value::<crate::props::c11::TableCase>(case["case"].clone()) {
+            let v = crate::props::c11::run_table_case(ctx, &c);
+            ctx.report(v);
+        }
+        return;
+    }
     match case["kind"].as_str() {
         Some("tag") => {
             if let Some(v) = check_tag(ctx, case["tci"].as_u64().unwrap_or(0) as u16, case["nested"].as_bool().unwrap_or(false)) {
